@@ -12,8 +12,15 @@ import (
 	"time"
 
 	"github.com/bytom/bytom/account"
+	"github.com/bytom/bytom/asset"
+	"github.com/bytom/bytom/blockchain/signers"
+	"github.com/bytom/bytom/consensus"
+	"github.com/bytom/bytom/crypto/ed25519/chainkd"
 	dbm "github.com/bytom/bytom/database/leveldb"
+	"github.com/bytom/bytom/protocol"
 	"github.com/bytom/bytom/protocol/bc"
+	"github.com/bytom/bytom/protocol/bc/types"
+	"github.com/bytom/bytom/wallet"
 )
 
 // C26: the REAL account.utxoKeeper (through account/verif_hooks_verif.go, no background
@@ -535,6 +542,68 @@ func c26concurrent(c *Ctx, seed int64, workers, opsEach int) {
 	c.Count("concurrent-runs")
 }
 
+// The doubly listed state of F16 reached through the REAL wallet entry points: the pool
+// announces a transaction paying the wallet (MsgNewTx -> AddUnconfirmedTx), the block that
+// confirms it is attached (AttachBlock) before the pool's MsgRemoveTx is handled.
+func c26viaWallet(c *Ctx) {
+	defer func() {
+		if p := recover(); p != nil {
+			c.Extra["f16_via_wallet"] = fmt.Sprint("scenario panicked: ", p)
+		}
+	}()
+	consensus.ActiveNetParams = consensus.SoloNetParams
+	db := dbm.NewMemDB()
+	height := uint64(1)
+	am := account.VerifNewManager(db, func() uint64 { return height })
+	_, xpub, err := chainkd.NewXKeys(nil)
+	if err != nil {
+		panic(err)
+	}
+	acc, err := am.Create([]chainkd.XPub{xpub}, 1, "a", signers.BIP0044)
+	if err != nil {
+		panic(err)
+	}
+	cp, err := am.CreateAddress(acc.ID, false)
+	if err != nil {
+		panic(err)
+	}
+	w := wallet.VerifNewWallet(db, am, asset.NewRegistry(db, nil))
+	cb := func(h uint64) *types.Tx {
+		return types.NewTx(types.TxData{Version: 1, Inputs: []*types.TxInput{types.NewCoinbaseInput([]byte{byte(h)})},
+			Outputs: []*types.TxOutput{types.NewOriginalTxOutput(*consensus.BTMAssetID, 0, []byte{0x51}, nil)}})
+	}
+	genesis := &types.Block{BlockHeader: types.BlockHeader{Version: 1, Height: 0}, Transactions: []*types.Tx{cb(0)}}
+	if err := w.AttachBlock(genesis); err != nil {
+		panic(err)
+	}
+	tx := types.NewTx(types.TxData{Version: 1,
+		Inputs:  []*types.TxInput{types.NewSpendInput(nil, bc.Hash{V0: 9}, *consensus.BTMAssetID, 7, 0, []byte{0x51}, nil)},
+		Outputs: []*types.TxOutput{types.NewOriginalTxOutput(*consensus.BTMAssetID, 5, cp.ControlProgram, nil)}})
+	w.AddUnconfirmedTx(&protocol.TxDesc{Tx: tx})
+	blk := &types.Block{BlockHeader: types.BlockHeader{Version: 1, Height: 1, PreviousBlockHash: genesis.Hash(), Timestamp: 1}, Transactions: []*types.Tx{cb(1), tx}}
+	if err := w.AttachBlock(blk); err != nil {
+		panic(err)
+	}
+	k := account.VerifKeeperOf(am)
+	res, err := k.Reserve(acc.ID, consensus.BTMAssetID, 10, true, nil, c26time(1000))
+	switch {
+	case err == nil && len(res.UTXOs) == 2 && res.UTXOs[0].OutputID == res.UTXOs[1].OutputID:
+		c.Extra["f16_via_wallet"] = "reproduced: AddUnconfirmedTx + AttachBlock, then Reserve(10, useUnconfirmed) succeeds with the single output of 5 listed twice"
+		capFail(c, c26SigDupSelected, "through wallet.AddUnconfirmedTx + wallet.AttachBlock (pool removal not yet handled): the wallet owns one output of 5, Reserve(10) succeeds holding it twice")
+		k.Cancel(res.ID)
+	case err == account.ErrInsufficient:
+		c.Extra["f16_via_wallet"] = "not reproduced: Reserve(10) correctly reports insufficient funds"
+	default:
+		c.Extra["f16_via_wallet"] = fmt.Sprintf("unexpected answer: %v %v", res, err)
+		c.Fail("Reserve through the wallet gives an unexpected answer", fmt.Sprint(res, err))
+	}
+	w.RemoveUnconfirmedTx(&protocol.TxDesc{Tx: tx})
+	if _, err := k.Reserve(acc.ID, consensus.BTMAssetID, 10, true, nil, c26time(1000)); err != account.ErrInsufficient {
+		c.Fail("after the pool removal event Reserve(10) over a single output of 5 must be insufficient", fmt.Sprint(err))
+	}
+	c.Count("via-wallet-scenario")
+}
+
 func runC26(c *Ctx) {
 	c.Rule = "operation sequences (8-35 ops after `reset`) of putdb/deldb/addunc/rmunc/reserve/particular/cancel/expire/height over 4-12 outputs whose attributes are fixed per id; amounts drawn from a pool with ties; most cases keep nearly all outputs in one (account, asset, vote) class so reservations compete; outputs are freely put both in the DB and in the unconfirmed map; a case is distinct by its op line; plus concurrent runs (8 goroutines) checked against the map invariant only"
 	s := &c26st{c: c}
@@ -548,6 +617,7 @@ func runC26(c *Ctx) {
 	for _, l := range c.CorpusLines() {
 		s.exec(l)
 	}
+	c26viaWallet(c)
 	for i := 0; i < c.N; i++ {
 		for _, l := range c26gen(c) {
 			s.exec(l)
